@@ -6,6 +6,7 @@ from vlib import judge
 TOKENS = ["-b", "--b", "-b=true", "-b=false", "-b=", "-b=x", "-s", "-s=v", "--s=v", "-s=", "-s=a=b", "--s", "-i=7", "-i=x", "-i",
           "-i=-5", "-u", "-u=1", "--", "-", "---s", "-=", "-=v", "--=v", "v", "true", "-5", "=", "", "-help", "--help=false",
           "-config=", "x=y", "s", "-s=-b", "--i=", "-b=1", "-config=cfg.json",
+          "-B", "--B=true", "-S=v", "-I=7", "-HELP", "-Help=true",
           "-i=010", "-i=0x1f", "-i=08", "-i=1_0", "-i=0b11", "-i=+4", "-i=0_7", "-i=_1"]
 
 
